@@ -286,7 +286,9 @@ def run_task(task):
     roles = set()
 
     def run_path(I):
-        text, events, decoys, syms = build(I, items)
+        # the text handed to the tag parser is a comment with its delimiter blanked: it always starts
+        # with at least one blank byte (`#`), so a tag never sits at byte 0 of a one-tag text
+        text, events, decoys, syms = build(I, (('T', ' '),) + tuple(items))
         holder.update(text=text, events=events, decoys=decoys, syms=syms)
         src = SStr(text, alloc=I.new_alloc() if hasattr(I, 'new_alloc') else 7001)
         parser = Cell(mk_struct(prog, 'WinnowBlockTagParser', source=src, cursor=0))
@@ -488,7 +490,11 @@ def expected_list(texts):
     bases = []
     for i, t in enumerate(texts):
         bases.append(len(src) + 2)
-        src += b'/*' + t + b'*/\ncode%d();\n' % i
+        if b'\n' not in t and b'\r' not in t:
+            # a line comment ends exactly where the text ends (a block comment's `*/` would pad it with blanks)
+            src += b'//' + t + b'\ncode%d();\n' % i
+        else:
+            src += b'/*' + t + b'*/\ncode%d();\n' % i
     src += b''.join(b'/* </block> */\n' for _ in range(depth - low))
     stack = [('pre', i) for i in range(npre)]
     blocks = []
@@ -585,6 +591,11 @@ def tasks_for(tier, rnd):
     for w in itertools.product((0, 1, 2), repeat=3):
         if sum(w) <= 3:
             T.append((('N', 1), ('E',) + w, ('N', 1)))
+    # a tag as the very last bytes of the text, directly after another tag (nothing left after it)
+    T.append((('E', 0, 0, 0), ('S', (), 0)))
+    T.append((('S', (A(1, 'n', 'bare'),), 0), ('S', (), 0)))
+    T.append((('N', 1), ('S', (), 0), ('E', 0, 0, 0)))
+    T.append((('S', (), 0), ('E', 0, 0, 0), ('E', 0, 0, 0)))
     # sequences: tags back to back, decoys right before / after a tag
     T.append((('S', (A(1, 'n', 'dq', 0, 0, 'v'),), 0), ('S', (A(1, 'n', 'bare'),), 0), ('E', 0, 1, 0), ('E', 1, 0, 0)))
     T.append((('T', '<b>'), ('S', (A(1, 'nn', 'unq', 0, 0, 'nn'),), 0), ('T', '</b>'), ('E', 0, 0, 0)))
